@@ -11,6 +11,12 @@ func (*inRange) Exit(node *Node) {
 	switch n := (*node).(type) {
 	case *BinaryNode:
 		if n.Operator == "in" || n.Operator == "not in" {
+			// The rewrite below mentions the left operand twice, so it is
+			// only applied when evaluating that operand twice cannot be told
+			// apart from evaluating it once (no calls, no builtins).
+			if !canDuplicate(n.Left) {
+				return
+			}
 			if rng, ok := n.Right.(*BinaryNode); ok && rng.Operator == ".." {
 				if from, ok := rng.Left.(*IntegerNode); ok {
 					if to, ok := rng.Right.(*IntegerNode); ok {
@@ -38,4 +44,15 @@ func (*inRange) Exit(node *Node) {
 			}
 		}
 	}
+}
+
+// canDuplicate reports whether node can be evaluated twice in place of once.
+func canDuplicate(node Node) bool {
+	switch n := node.(type) {
+	case *NilNode, *IdentifierNode, *IntegerNode, *FloatNode, *BoolNode, *StringNode, *ConstantNode, *PointerNode:
+		return true
+	case *PropertyNode:
+		return canDuplicate(n.Node)
+	}
+	return false
 }
